@@ -60,6 +60,14 @@ def units(tier, seed):
     for fr, ego in frames[:2]:
         for pol in S.POLICIES[:2]:
             u.append(dict(seam="frame", family="res_reversed", frame=fr, ego=list(ego), policy=pol, kmax=2, chunk=[0, 1], tier=tier))
+    # the pass/fail configuration also carries a threshold for the false_positive label (an estimate can "hit" an FP-labelled ground truth)
+    for fr, ego in frames[:2]:
+        for pol in S.POLICIES[:2]:
+            u.append(dict(seam="frame", family="fp_thr", frame=fr, ego=list(ego), policy=pol, kmax=2, chunk=[0, 1], tier=tier))
+    # a distance ring whose inner radius differs widely between the labels (unknown estimates are judged by the mean bound)
+    for fr, ego in frames[:2]:
+        for pol in S.POLICIES:
+            u.append(dict(seam="frame", family="ring_nonuni", frame=fr, ego=list(ego), policy=pol, kmax=2, chunk=[0, 1], tier=tier))
     # objects exactly at the ego origin (ego-relative x = y = 0.0, planar distance exactly 0) - in the ego frame and in map renderings
     # whose ego pose has no rotation, so that the transformed coordinates are exact zeros too
     for fr, ego in (("base_link", (0.0, 0.0, 0.0)), ("map", (10.0, -5.0, 0.0)), ("map", (0.0, 0.0, 0.0))):
@@ -162,7 +170,9 @@ def run_unit(unit, acc):
     if unit.get("family") == "origin":
         est = [dict(est[0], x=0.0, y=0.0), dict(est[2], x=0.0, y=0.0), est[0], dict(est[1], x=0.0, y=0.0, z=1.5)]
         gt = [dict(gt[0], x=0.0, y=0.0), dict(gt[2], x=0.0, y=0.0, pts=0), gt[0], gt[2]]
-    if unit.get("family") in ("reversed", "pf_reversed", "res_reversed"):
+    if unit.get("family") == "fp_thr":
+        est, gt = [est[i] for i in (0, 2, 5, 6, 9)] + [dict(est[9], x=est[9]["x"] + 1.3, uuid="e9b", score=0.31)], [gt[j] for j in (0, 2, 4)] + [dict(gt[4], x=3.2, y=-1.9, uuid="g4b")]
+    if unit.get("family") in ("reversed", "pf_reversed", "res_reversed", "ring_nonuni"):
         est, gt = [est[i] for i in (0, 1, 2, 3, 4, 5, 7)], [gt[j] for j in (0, 1, 2, 3, 4, 7)]
     if unit["seam"] == "manager" and unit["tier"] == "quick":
         est, gt = [est[i] for i in (0, 1, 3, 4, 5, 7)], [gt[j] for j in (0, 1, 3, 4, 7)]
@@ -181,6 +191,12 @@ def run_unit(unit, acc):
             if unit.get("family") in ("reversed", "pf_reversed", "res_reversed"):
                 case["family"] = unit["family"]
                 case["crits"], case["thrs"] = ["box_per_label", "ring"], ["per_label"]
+            if unit.get("family") == "ring_nonuni":
+                case["family"] = "ring_nonuni"
+                case["crits"], case["thrs"] = ["ring_nonuni"], ["per_label", "loose"]
+            if unit.get("family") == "fp_thr":
+                case["family"] = "fp_thr"
+                case["crits"], case["thrs"] = ["box_per_label", "ring"], ["per_label", "loose"]
             if unit.get("family") == "origin":
                 case["family"] = "origin"
                 case["crits"], case["thrs"] = ["ring", "box_per_label"], ["per_label"]
@@ -394,7 +410,8 @@ def check_case(case, acc):
                 pfr = case.get("family") == "pf_reversed"
                 fr = F.evaluate_frame(ec, res, gts, ego, CRIT3[crit] if u3 else (_rev(S.CRIT[crit]) if rv else S.CRIT[crit]),
                                       THR3[thr] if u3 else (list(reversed(S.THR[thr])) if rv else S.THR[thr]), labels=names, previous=prev,
-                                      pf_labels=("pedestrian", "car") if pfr else None, pf_thr=list(reversed(S.THR[thr])) if pfr else None)
+                                      pf_labels=("pedestrian", "car") if pfr else (("car", "pedestrian", "false_positive") if case.get("family") == "fp_thr" else None),
+                                      pf_thr=list(reversed(S.THR[thr])) if pfr else ((list(S.THR[thr]) + [1.0]) if case.get("family") == "fp_thr" else None))
                 pre_results = {G.index_of(r.estimated_object, ests): (None if r.ground_truth_object is None else G.index_of(r.ground_truth_object, gts)) for r in res}
                 _check_frame(case, crit, thr, fr, ests, gts, pre_e, pre_g, acc, pre_results=pre_results)
     else:
